@@ -195,23 +195,61 @@ func RuleKAccrualDates(c *core.Ctx) {
 	tbT := p.NamedType(pkgTransaction, "Builder")
 	txDate := p.Field(pkgTransaction, "Transaction", "Date")
 	n := 0
-	core.EachInstr(fn, func(ins ssa.Instruction) {
-		a, ok := ins.(*ssa.Alloc)
-		if !ok {
-			return
-		}
-		pt, ok := a.Type().Underlying().(*types.Pointer)
-		if !ok || !isNamed(pt.Elem(), tbT) || a.Referrers() == nil {
-			return
-		}
-		var dateVal ssa.Value
-		for _, r := range *a.Referrers() {
-			if fa, ok := r.(*ssa.FieldAddr); ok && core.FieldOf(fa).Name() == "Date" {
-				for _, st := range core.StoresTo(fa) {
-					dateVal = st.Val
+	// emission sites: a transaction builder literal in the expansion itself, or a
+	// call of a local helper whose literal takes its Date from a parameter
+	type site struct {
+		at      ssa.Instruction
+		dateVal ssa.Value
+	}
+	var sites []site
+	for _, g := range core.WithAnon(fn) {
+		core.EachInstr(g, func(ins ssa.Instruction) {
+			a, ok := ins.(*ssa.Alloc)
+			if !ok {
+				return
+			}
+			pt, ok := a.Type().Underlying().(*types.Pointer)
+			if !ok || !isNamed(pt.Elem(), tbT) || a.Referrers() == nil {
+				return
+			}
+			var dateVal ssa.Value
+			for _, r := range *a.Referrers() {
+				if fa, ok := r.(*ssa.FieldAddr); ok && core.FieldOf(fa).Name() == "Date" {
+					for _, st := range core.StoresTo(fa) {
+						dateVal = st.Val
+					}
 				}
 			}
-		}
+			if g == fn {
+				sites = append(sites, site{a, dateVal})
+				return
+			}
+			prm, isParam := dateVal.(*ssa.Parameter)
+			if !isParam {
+				sites = append(sites, site{a, dateVal})
+				return
+			}
+			idx := -1
+			for i, q := range g.Params {
+				if q == prm {
+					idx = i
+				}
+			}
+			core.EachInstr(fn, func(cins ssa.Instruction) {
+				call, ok := cins.(*ssa.Call)
+				if !ok || idx < 0 {
+					return
+				}
+				for _, callee := range p.Callees(call) {
+					if callee == g && idx < len(call.Call.Args) {
+						sites = append(sites, site{call, call.Call.Args[idx]})
+					}
+				}
+			})
+		})
+	}
+	for _, st := range sites {
+		a, dateVal := st.at, st.dateVal
 		// is this literal inside a loop over EndDates?
 		inParts := false
 		var fromDates bool
@@ -261,7 +299,7 @@ func RuleKAccrualDates(c *core.Ctx) {
 				c.Ob(rule, key, a.Pos(), fname, core.Violated, "a leg that is not split is not dated at the original transaction's date")
 			}
 		}
-	})
+	}
 	if n < 2 {
 		c.Ob(rule, fname+":two builder literals", fn.Pos(), fname, core.Undecided, fmt.Sprintf("expected a kept-leg and a split-leg transaction builder, found %d", n))
 	}
